@@ -5,10 +5,12 @@ import (
 	"errors"
 	"fmt"
 	"runtime"
+	"sort"
 	"strings"
 	"sync"
 	"sync/atomic"
 	"time"
+	"unicode/utf8"
 
 	bs "github.com/danthegoodman1/bloomsearch"
 
@@ -158,6 +160,8 @@ type scriptStep struct {
 type faultSpec struct {
 	Kind string `json:"kind"` // OpenFile, Read, Seek, IterYield, Iter
 	N    int    `json:"n"`    // the n-th call of that kind within the query
+	// File, when set, restricts the count to calls on that file: the n-th call of the kind on it.
+	File string `json:"file,omitempty"`
 }
 
 type scriptCase struct {
@@ -216,6 +220,8 @@ type scriptOutcome struct {
 // scriptWorld is a prebuilt data set shared by a case's scripts.
 type scriptWorld struct {
 	bigRegion bool
+	bigPtr    string   // pointer of the multi-chunk file
+	bigKeys   []string // field paths present in some but not all of its blocks
 	w         *world.World
 	d         *world.Descriptor
 	inv       []*world.FileInv
@@ -227,6 +233,7 @@ type scriptWorld struct {
 
 // scriptPlan injects faults relative to a query's start and random delays.
 type scriptPlan struct {
+	perFile   map[string]int
 	iterGate  *stores.Gate // the iterGateN-th iterator yield of the query parks here (honours ctx)
 	iterGateN int
 	mu        sync.Mutex
@@ -250,7 +257,26 @@ func (p *scriptPlan) decide(c *stores.Call) stores.Action {
 		act.Gate = p.iterGate
 	}
 	for _, f := range p.faults {
-		if f.Kind == c.Kind && f.N == rel {
+		if f.Kind != c.Kind {
+			continue
+		}
+		if f.File != "" {
+			if c.File != f.File {
+				continue
+			}
+			if p.perFile == nil {
+				p.perFile = map[string]int{}
+			}
+			key := f.Kind + "|" + f.File
+			n := p.perFile[key]
+			p.perFile[key] = n + 1
+			if n == f.N {
+				act.Fail = true
+				p.injected = append(p.injected, fmt.Sprintf("%s#%d", c.Kind, c.Seq))
+			}
+			continue
+		}
+		if f.N == rel {
 			act.Fail = true
 			p.injected = append(p.injected, fmt.Sprintf("%s#%d", c.Kind, c.Seq))
 		}
@@ -349,6 +375,32 @@ func buildScriptWorld(rc *RunCtx, i int) (*scriptWorld, error) {
 		return nil, err
 	}
 	sw.inv = inv
+	if sw.bigRegion && len(sw.d.Ext) > 0 {
+		sw.bigPtr = sw.d.Ext[len(sw.d.Ext)-1].Ptr
+		for _, f := range inv {
+			if f.Ptr != sw.bigPtr {
+				continue
+			}
+			count := map[string]int{}
+			for _, b := range f.Blocks {
+				seen := map[string]bool{}
+				for _, vid := range b.VIDs {
+					for path := range w.Rows[vid].Doc.Fields {
+						if !seen[path] && utf8.ValidString(path) && path != "" {
+							seen[path] = true
+							count[path]++
+						}
+					}
+				}
+			}
+			for path, n := range count {
+				if n < len(f.Blocks) {
+					sw.bigKeys = append(sw.bigKeys, path)
+				}
+			}
+			sort.Strings(sw.bigKeys)
+		}
+	}
 	for _, f := range inv {
 		sw.d.Files++
 		sw.d.Blocks += len(f.Blocks)
@@ -418,9 +470,11 @@ func runScripts(rc *RunCtx, i int, forProp string) {
 				sc.Faults = append(sc.Faults, faultSpec{Kind: kind, N: r.Range(0, 12)})
 			}
 		}
-		if sw.bigRegion && r.Chance(0.6) {
-			// a read failure in the middle of a multi-chunk filter pass, query left to run to the end
-			sc.Faults = []faultSpec{{Kind: "Read", N: r.Range(1, 9)}}
+		bigFault := sw.bigRegion && r.Chance(0.6)
+		if bigFault {
+			// a read failure in the middle of the multi-chunk filter pass of the big file (its
+			// second, third, ... read), query left to run to the end
+			sc.Faults = []faultSpec{{Kind: "Read", N: r.Range(1, 3), File: sw.bigPtr}}
 			sc.Steps = []scriptStep{{Op: "drain"}}
 			rc.Res.Count("scripts_fault_in_multichunk_filter_pass", 1)
 		} else if r.Chance(0.15) {
@@ -451,6 +505,11 @@ func runScripts(rc *RunCtx, i int, forProp string) {
 			e := facts.BloomTree(r, 2, false)
 			q = &bs.Query{Bloom: &bs.BloomQuery{Expression: &e}}
 		}
+		if bigFault && len(sw.bigKeys) > 0 && r.Chance(0.7) {
+			// a condition that only some blocks of the big file can satisfy: the others are pruned
+			// by their filters in whichever chunk holds them
+			q = bs.NewQuery().Field(core.Pick(r, sw.bigKeys)).Build()
+		}
 		sc.Query = queryJSON(q)
 		runOneScript(rc, i, k, sw, sc, q, forProp, pm)
 	}
@@ -475,6 +534,7 @@ func runOneScript(rc *RunCtx, i, k int, sw *scriptWorld, sc *scriptCase, q *bs.Q
 	sw.plan.faults = sc.Faults
 	sw.plan.delays = sc.Delays
 	sw.plan.injected = nil
+	sw.plan.perFile = nil
 	sw.plan.iterGate = nil
 	if sc.IterGate > 0 {
 		sw.plan.iterGate = stores.NewGate(true)
